@@ -391,8 +391,19 @@ func (x *xformComp) Class(c Case, impl []string) string {
 // ---- generators ----
 
 var xConsts = []string{"a", "ab", "abc", "err", "web", "x", "info", "é", "k=", "[", "]", " "}
-var xHeadPatterns = []string{`\[*\]`, `\[*\] `, `<*>`, `*: `, `[a-z0-9_]:`, `[a-z]`, `id=[0-9] `, `[^ ] `, `(*)`, `[A-Za-z\-]=`, `k=*;`, `[a-]x`}
-var xTailPatterns = []string{` (*)`, ` [a-z]`, ` #[0-9]`, `=*`, ` \[*\]`, `:[^:]`, ` <*>`, `=[0-9a-f]`}
+var xHeadPatterns = []string{`\[*\]`, `\[*\] `, `<*>`, `*: `, `[a-z0-9_]:`, `[a-z]`, `id=[0-9] `, `[^ ] `, `(*)`, `[A-Za-z\-]=`, `k=*;`, `[a-]x`,
+	`\[*\] - `, `<*>: `, `[a-z]::`, `*--->`}
+var xTailPatterns = []string{` (*)`, ` [a-z]`, ` #[0-9]`, `=*`, ` \[*\]`, `:[^:]`, ` <*>`, `=[0-9a-f]`, ` -- (*)`, ` ::[a-z]`, `<---*`}
+
+// xPatParts: left boundary, a label character the pattern accepts, right boundary — to build values whose boundaries sit at
+// every position around the search range
+var xPatParts = map[string][3]string{
+	`\[*\]`: {"[", "q", "]"}, `\[*\] `: {"[", "q", "] "}, `<*>`: {"<", "q", ">"}, `*: `: {"", "q", ": "}, `[a-z0-9_]:`: {"", "a", ":"},
+	`id=[0-9] `: {"id=", "5", " "}, `[^ ] `: {"", "q", " "}, `(*)`: {"(", "q", ")"}, `[A-Za-z\-]=`: {"", "B", "="}, `k=*;`: {"k=", "q", ";"},
+	`[a-]x`: {"", "a", "x"}, `\[*\] - `: {"[", "q", "] - "}, `<*>: `: {"<", "q", ">: "}, `[a-z]::`: {"", "a", "::"}, `*--->`: {"", "q", "--->"},
+	` (*)`: {" (", "q", ")"}, ` #[0-9]`: {" #", "5", ""}, `=*`: {"=", "q", ""}, ` \[*\]`: {" [", "q", "]"}, `:[^:]`: {":", "q", ""},
+	` <*>`: {" <", "q", ">"}, `=[0-9a-f]`: {"=", "c", ""}, ` -- (*)`: {" -- (", "q", ")"}, ` ::[a-z]`: {" ::", "a", ""}, `<---*`: {"<---", "q", ""},
+}
 var xValues = []string{"", "a", "ab", "abc", "abcdef", "err", "web", "info", "[tag] rest of it", "[ t ] x", "<13>hello", "key: value", "svc_1:payload", "id=12345 tail",
 	"word another", "(p)", "msg (trailer)", "line #42", "héllo wörld", "日本語テキスト", "a\\nb\\tc\\\\d\\", "user foo.bar@domain.fi here", "x@y", "2019-08-15T15:50:46.866915+03:00",
 	"2019-08-15T15:50:46Z", "-", "k=v;rest", "abc=1", "path:/a:b", "end <x>", "v=1f", "  padded  ", "\x00\x01", "\xff\xfe"}
@@ -531,8 +542,11 @@ func (x *xformComp) Generate(rng *rand.Rand, n int, emit func(Case)) {
 		st := xStep{kind: "drop", rate: rate, id: xDropID, match: xMatch{{0, xVM{kind: "any"}}}}
 		ops := []Op{xLoadOp([]xStep{st})}
 		nrec := 250
+		if rate == 10 || rate == 33 || rate == 90 {
+			nrec = 9000 // long enough for counter-window / rescaling schemes to show
+		}
 		if n >= 100000 {
-			nrec = 2000
+			nrec = 40000
 		}
 		for i := 0; i < nrec; i++ {
 			v := []string{"x", "", "", "", "", ""}
@@ -559,6 +573,33 @@ func (x *xformComp) Generate(rng *rand.Rand, n int, emit func(Case)) {
 					ops = append(ops, xRunOp(rng, []string{v, "old", "", "", "", ""}))
 				}
 				emit(Case{Ops: ops, Tag: "extract-grid"})
+			}
+		}
+	}
+	// boundaries at every position around the search range: label lengths 0..maxLen+3 for every pattern and small ranges
+	for _, kind := range []string{"exh", "ext"} {
+		pats := xHeadPatterns
+		if kind == "ext" {
+			pats = xTailPatterns
+		}
+		for _, p := range pats {
+			parts, ok := xPatParts[p]
+			if !ok {
+				continue
+			}
+			for _, ml := range []int{1, 2, 3, 4, 5, 7, 10} {
+				ops := []Op{xLoadOp([]xStep{{kind: kind, key: 0, dest: 1, pattern: p, maxLen: ml}})}
+				for l := 0; l <= ml+3; l++ {
+					v := parts[0] + strings.Repeat(parts[1], l) + parts[2]
+					for _, rest := range []string{"", " rest"} {
+						if kind == "exh" {
+							ops = append(ops, xRunOp(rng, []string{v + rest, "old", "", "", "", ""}))
+						} else {
+							ops = append(ops, xRunOp(rng, []string{strings.TrimLeft(rest+" ", " ") + "head" + v, "old", "", "", "", ""}))
+						}
+					}
+				}
+				emit(Case{Ops: ops, Tag: "extract-range-sweep"})
 			}
 		}
 	}
